@@ -52,7 +52,7 @@ class C15(Check):
             "pruning metrics when that sequence has no ties, and with 'smallest crowding computed once' for cd / ce; the survival itself is compared with the model "
             "(recorded crowding values and permutation); for 15% of the fronts (most of them tie-rich, with extremes held by several different points) the crowding vectors "
             "of all metrics on both engines (worker processes; pcd with 3+ objectives on the pure-Python engine only) are judged for EVERY tie-break of the cut: no holder "
-            "set of a minimum / maximum may be droppable when >= 2*n_obj members are kept; 30% of the survival calls are made on an operator object that has truncated another front, or the same front to another size (or not at all), before; non-trivial = at least 2 members dropped; distinct by hash")
+            "set of a minimum / maximum may be droppable when >= 2*n_obj members are kept; 30% of the survival calls are made on an operator object that has truncated another front, or the same front to another size (or not at all), before; non-trivial = at least 2 members dropped; distinct by hash; 30% of the survival cases put one or two better layers (2-4 members each) in front, so that the truncated front is not the first")
     ASSUMPTIONS = ["the boundary clause is a theorem about any crowding vector that is +inf on a set E with |{inf}| <= kept; that each metric puts +inf on holders of every "
                    "objective's minimum and maximum is established by C13's correspondence and oracle, not proved (partial)",
                    "'pruning one at a time' for the compiled engine relies on the tested (not proved) agreement of the incremental kernels with recomputation from scratch"]
@@ -88,6 +88,17 @@ class C15(Check):
             if self.rng.random() < 0.3:
                 # the survival object of an algorithm lives for the whole run: it has truncated another front, or the same front to another size, before
                 case["prime"] = self.rng.choice(["other", "same", "samefull"])
+            if self.rng.random() < 0.3 and N >= 3:
+                # the truncated front is not the first one: one or two better layers (each a shifted copy of part of the front, so its members
+                # dominate the whole front and not each other) are accepted in full before it
+                rngF = float(F.max() - F.min()) + 1.0
+                lead = []
+                for layer in range(self.rng.choice([1, 1, 2])):
+                    idx = sorted(self.rng.sample(range(N), self.rng.randint(2, min(N, 4))))
+                    lead = [(F[i] - (layer + 1) * rngF * 2.0).tolist() for i in idx] + lead
+                case["F"] = lead + F.tolist(); case["n_lead"] = len(lead)
+                case["G"] = [[] for _ in range(len(case["F"]))]; case["H"] = case["G"]
+                case["n_survive"] = len(lead) + k
             yield case
 
     def run(self, case):
@@ -107,8 +118,11 @@ class C15(Check):
         m = surv.oracle_c03(case, obs)
         if m:
             return m
-        F = np.array(case["F"], dtype=float); N, M = F.shape
-        S = sorted(obs["surv"]); k = case["n_survive"]
+        n0 = case.get("n_lead", 0)
+        if n0 and not set(range(n0)) <= set(obs["surv"]):
+            return None          # a member of a better layer was dropped: C04's business
+        F = np.array(case["F"], dtype=float)[n0:]; N, M = F.shape          # the split front
+        S = sorted(i - n0 for i in obs["surv"] if i >= n0); k = case["n_survive"] - n0
         if len(np.unique(F, axis=0)) < N or not crowd.nondominated(F):
             return None
         if k >= 2 * M and k < N:
@@ -173,7 +187,7 @@ class C15(Check):
 
     def known(self, case, obs, msg):
         a = getattr(self, "aux", {}).get(getattr(self, "cur", None), {})
-        Fk = decarr(case["F"], 2) if case.get("kind") == "dvec" else np.array(case["F"], dtype=float)
+        Fk = decarr(case["F"], 2) if case.get("kind") == "dvec" else np.array(case["F"], dtype=float)[case.get("n_lead", 0):]
         if a.get("tinydup") and len(np.unique(Fk, axis=0)) == len(Fk) and msg.split(":")[0] in ("C15-boundary", "C15-pruning", "C15-oneshot"):
             return "metrics/dup-eps-absolute"      # see C13: the model's duplicate filter flags a point of a front of distinct points
         if case.get("kind") == "dvec":
@@ -186,8 +200,8 @@ class C15(Check):
             return "compiled/pcd/OOB"
         # the duplicated-neighbour defect of the compiled mnn kernel changes the drop order: only if the kernel model confirms it
         if case["cf"] == "mnn" and msg.startswith("C15-pruning"):
-            F = np.array(case["F"], dtype=float)
-            n_remove = len(F) - case["n_survive"]
+            F = np.array(case["F"], dtype=float)[case.get("n_lead", 0):]
+            n_remove = len(F) - (case["n_survive"] - case.get("n_lead", 0))
             r = engine("compiled").call("mnn", F, n_remove)
             if r.get("crash") or "exception" in r:
                 return None
@@ -207,7 +221,8 @@ class C15(Check):
     def classes(self, case, obs):
         if case.get("kind") == "dvec":
             return [case["label"], case["style"], "obj=%d" % len(case["F"][0]), "crowding-vector-" + case["engine"], "boundary-clause"]
-        return [case["cf"], case["style"], "obj=%d" % len(case["F"][0])] + (["boundary-clause"] if case["n_survive"] >= 2 * len(case["F"][0]) else [])
+        return [case["cf"], case["style"], "obj=%d" % len(case["F"][0])] + (["boundary-clause"] if case["n_survive"] - case.get("n_lead", 0) >= 2 * len(case["F"][0]) else []) + (
+            ["split-front-is-not-the-first"] if case.get("n_lead") else [])
 
 
 if __name__ == "__main__":
